@@ -36,6 +36,12 @@ The decisions that depend on the GP / geometry enter as inputs of the operations
   members of `S` found "not covered" (`new_pareto_pts`), moved from `S` to `P` only if the gate is open.
 * `evalRefine c vh` — `evaluate_refine()`: `c` = chosen candidate (member of `S ∪ P`), `vh` the
   comparison result; refines `c` and replaces it by its children **in the same set**, or samples.
+
+`Algo.apply` / `Algo.run` execute one / a list of such operations (`Op`); `Algo.step` composes them
+as `run_one_step()` does and `Algo.steps` iterates it.  `Space.applyOp` / `Space.runOps` do the same
+for design-space-only sequences (`SOp`: direct refinement, guarded refinement, region update);
+`Space.leafOnly` says that every refinement of such a sequence hit a leaf.  `none` always stands for
+"the Python code would raise here" (index out of range, `set.remove` of a missing element).
 -/
 namespace VOPy.Adaptive
 
